@@ -344,6 +344,22 @@ func init() {
 		r.build(t.ID, "build", nil, "", "scenario: a sub-target")
 		r.build(top.ID, "build", nil, "", "scenario")
 		r.checkClean(top.ID)
+		// LAST (the tree stays stale afterwards, see the known finding `declared-order`): the same dependencies and
+		// sources, declared in another order; then one of them declared twice.  A record keeps the stamps of its
+		// dependencies as an unordered map, so neither edit is noticed, while a body that works on what is declared in
+		// the declared order (a link line) produces other output from scratch.
+		t.Srcs = append(t.Srcs, s1)
+		r.emitProj("add source s1 to t (so that it has two)")
+		r.build(top.ID, "build", nil, "", "scenario")
+		r.checkClean(top.ID)
+		t.Srcs[0], t.Srcs[1] = t.Srcs[1], t.Srcs[0]
+		r.emitProj("the two sources of t declared in the other order")
+		r.build(top.ID, "build", nil, "", "scenario")
+		r.checkCleanAs(top.ID, "declared-order")
+		t.Srcs = append(t.Srcs, t.Srcs[0])
+		r.emitProj("a source of t declared twice")
+		r.build(top.ID, "build", nil, "", "scenario")
+		r.checkCleanAs(top.ID, "declared-order")
 	})
 }
 
